@@ -22,7 +22,7 @@ Hypothesis ev_ok : forall p m, In (VPred p) vp -> wf m ->
   (exists e, fst (ev p m tr) = Exn e /\ budget_exn e = true).
 Hypothesis ev_quiet : forall p m, ev_results (snd (ev p m tr)) = [].
 Hypothesis Hsrc : src_wf src.
-Hypothesis Hpure : pure_sev P sev.
+Hypothesis Hpure : pure_sev P sev vp.
 Hypothesis Hvalid : valid_path P vp = true.
 
 Definition start : jctx := abs (root_match src).
@@ -45,7 +45,7 @@ Theorem find_matches_deval :
     let d := drain P ev src vp tr fuel B init_state in
     exact_answer d \/ sound_prefix P ev sev src vp tr d.
 Proof.
-  destruct (sem_deval P sev Hpure vp Hvalid 0 (pmc tr) start) as [Hok Hres].
+  destruct (sem_deval P sev vp Hpure Hvalid 0 (pmc tr) start) as [Hok Hres].
   destruct (iterator_spec P ev sev src vp tr ev_ok ev_quiet Hsrc) as [k Hk].
   exists k. intros B fuel HB Hfuel d.
   unfold answer in Hk. fold start in Hk.
@@ -118,7 +118,7 @@ Proof.
      map abs_ev (snd (ev0 p m tr)) = proj (tracing tr) (snd (sev0 p (abs m)))) \/
     (exists e, fst (ev0 p m tr) = Exn e /\ budget_exn e = true)) by (intros []).
   assert (Hq : forall p m, ev_results (snd (ev0 p m tr)) = []) by (intros []).
-  assert (Hpure : pure_sev Empty_set sev0) by (intros []).
+  assert (Hpure : pure_sev Empty_set sev0 vp) by (intros []).
   destruct (find_matches_deval Empty_set ev0 sev0 src vp tr Hok Hq Hsrc Hpure Hvalid) as [k Hk].
   exists k. intros B fuel HB Hfuel.
   destruct (Hk B fuel HB Hfuel) as [H | H]; [exact H|].
@@ -186,7 +186,7 @@ Proof.
     (fst (ev p m tr) = fst (sev_const p (abs m)) /\
      map abs_ev (snd (ev p m tr)) = proj (tracing tr) (snd (sev_const p (abs m)))) \/
     (exists e, fst (ev p m tr) = Exn e /\ budget_exn e = true)) by (intros p m Hin; exfalso; eapply Hfree; eauto).
-  assert (Hpure : pure_sev P sev_const) by (intros p c; split; [exists JNull; reflexivity | reflexivity]).
+  assert (Hpure : pure_sev P sev_const vp) by (intros p c _; split; [exists JNull; reflexivity | reflexivity]).
   destruct (find_matches_deval P ev sev_const src vp tr Hok ev_quiet Hsrc Hpure Hvalid) as [k Hk].
   exists k. intros B fuel HB Hfuel.
   destruct (Hk B fuel HB Hfuel) as [H | H]; [exact H|].
